@@ -13,7 +13,7 @@
 #define PS_SLOTS 320          /* 4-byte shadow slots over all registered regions */
 enum { PS_START = 0, PS_LOCK = 1, PS_WAIT = 2, PS_JOIN = 3 };
 enum { PS_OK = 0, PS_F_RACE = 1, PS_F_MUTEX = 2, PS_F_MODEL = 3, PS_F_ASSERT = 4 };
-extern int ps_cur, ps_n, ps_owner, ps_fault;
+extern int ps_cur, ps_n, ps_owner, ps_fault, ps_race;
 extern struct vr_coro* ps_thr[PS_MAXT];
 void ps_reset(struct vr_coro* coordinator);
 int ps_enabled(int t);
